@@ -116,6 +116,18 @@ class Offset(Transform):
     image = Function(_offset, 'image', '_cfg')
 
 
+def _kernel(image, kernel):
+    return f'kernel{tuple(kernel.shape)}{kernel.ravel().tolist()}:{image}'
+
+
+class Correlate(Transform):
+    """a layer whose constructor argument is an array"""
+    __inherit__ = True
+    _kernel: object
+
+    image = Function(_kernel, 'image', '_kernel')
+
+
 def by_grp(grp):
     """a module-level grouping function (GroupBy(callable))"""
     return 'G' + str(grp)
